@@ -87,7 +87,8 @@ Record netlist : Type := mkNetlist {
   nl_modules : list module;
   nl_nets : list net;
   nl_rects : list mrect;              (* Netlist.rectangles *)
-  nl_eps : option (Qc * Qc) }.        (* Rectangle epsilons after the load; None = infinite *)
+  nl_eps : option (Qc * Qc) }.        (* Rectangle epsilons after the load; None = still undefined
+                                         (a design without any dimension defines no tolerance) *)
 
 Definition is_nil {A} (l : list A) : bool := match l with [] => true | _ => false end.
 Definition is_some {A} (o : option A) : bool := match o with Some _ => true | None => false end.
